@@ -696,5 +696,37 @@ mutual
     | a :: as => by simp [normArgs, norm_idem a, normArgs_idem as]
 end
 
+/-! ## DO statements (DOStatement::unparse writes its keyword since fix 1a89173) -/
+
+/-- The keyword `DOStatement::unparse` writes is the word the statement parser dispatches on: a changed
+`Statement::KEYWORDS` table breaks this lemma (and with it the DO round trip). -/
+theorem doKeyword_eq : doKeyword = bytesOf "do" := by decide
+
+theorem unparseStmt_do (lvl : Nat) (e : PExpr) : unparseStmt lvl (.doS e) = bytesOf "do " ++ unparseExpr e := by
+  have h : bytesOf "do" ++ [32] = bytesOf "do " := by decide
+  simp [unparseStmt, doKeyword_eq, ← h]
+
+/-- The statement parser with the keyword `do` in front: the expression, then the separator
+(`ParseStatement::parse` → `DOStatement::parse` → `beyond_statement`). -/
+theorem pStmt_do (f : Nat) (nested : Bool) (ts : List Tok) :
+    pStmt (f + 1) nested (kw "do" :: ts) =
+      (do let (e, ts2) ← pExpr f ts
+          let r ← beyond ts2
+          pure (some (.doS e), r)) := by
+  rw [pStmt.eq_def]
+  have hk : isStmtKw (kw "do").text = true := by decide
+  have h1 : ((kw "do").code == cSEMI) = false := by decide
+  have h2 : ((kw "do").code != cKW) = false := by decide
+  have n1 : isKw (kw "do") "nop" = false := by decide
+  have n2 : isKw (kw "do") "break" = false := by decide
+  have n3 : isKw (kw "do") "continue" = false := by decide
+  have n4 : isKw (kw "do") "trace" = false := by decide
+  have n5 : isKw (kw "do") "return" = false := by decide
+  have n6 : isKw (kw "do") "let" = false := by decide
+  have n7 : isKw (kw "do") "print" = false := by decide
+  have n8 : isKw (kw "do") "put" = false := by decide
+  have n9 : isKw (kw "do") "do" = true := by decide
+  simp only [h1, h2, hk, n1, n2, n3, n4, n5, n6, n7, n8, n9, if_true, if_false, Bool.false_eq_true]
+
 
 end BlocV.C12L
